@@ -431,6 +431,8 @@ func checkDiagnostics(c *Ctx, f *FC) {
 	c.expectNF(f, "C16.c", "OnParseError", []string{
 		`if((recover() != nil), seq[fmt.Printf(<str>, p0, recover()); os.Exit(<_>)], seq[])`,
 		`if((recover() != nil), seq[fmt.Println(<_>); os.Exit(<_>)], seq[])`,
+		`if((recover() != nil), seq[fmt.Fprintf(var:os.Stderr, <str>, p0, recover()); os.Exit(<_>)], seq[])`,
+		`if((recover() != nil), seq[fmt.Fprintf(var:os.Stdout, <str>, p0, recover()); os.Exit(<_>)], seq[])`,
 	}, "the recovered branch prints the diagnostic and exits")
 	// recover callers, os.Exit arguments, go statements
 	var recoverers, exits []string
